@@ -293,6 +293,10 @@ func propC01(c *Ctx) {
 	ruleScopeAgree(c, rsa)
 	rfe := c.Rule("fold-err-agree", "wherever the VM's operator cell returns an error for some operands of a token (zero divisor), the folding table declines under a test of the operand instead of folding to a value", 2)
 	ruleFoldErrAgree(c, rfe)
+	rfr := c.Rule("fold-range-agree", "for / % << >> on ints the folding table folds only right operands for which the VM's operator computes a value (operand range at the folding instruction within the range at the VM's instruction)", 4)
+	ruleFoldRangeAgree(c, rfr)
+	ria := c.Rule("init-always", "the init statement of an if/for statement is compiled whatever the statement's condition is (a condition folded to a literal must not change what else is compiled)", 1)
+	ruleInitAlways(c, ria)
 
 	// ---- symtab-current ---------------------------------------------------------------------------
 	rs := c.Rule("symtab-current", "whenever the compiler (re)initialises its optimizer, the optimizer's view of the symbol table is set from the compiler's CURRENT scope table: every store to the optimizer's table field takes a parameter, and every caller passes the compiler's symbolTable (a stale table makes the optimizer replace an identifier that a nested scope shadowed)", 2)
